@@ -253,7 +253,7 @@ Definition byte_code (L : list Z -> list Z) (A : list Z) (b : Z) : Z :=
 
 (* ====================================================================== which variant is in /repo *)
 Definition cur_lower : list Z -> list Z := lower_fixed.     (* switch to lower_fixed with notes/C06.fix-1.diff *)
-Definition cur_str_verify : bool := false.                   (* switch to true with notes/C06.fix-3.diff *)
+Definition cur_str_verify : bool := true.                    (* switch to true with notes/C06.fix-3.diff *)
 Definition cur_rule : rule := RFixed.                       (* switch to RFixed with notes/C06.fix-2.diff *)
 
 (* the predefined alphabets (constructor strings of alphabet_encoding.py:105-125) *)
